@@ -395,7 +395,8 @@ const CONTENTS: &[Content] = &[
     Content::Lit(b"x"), Content::Lit(b""), Content::Lit(b"\r\n"), Content::Lit(b"a\r\n"), Content::Lit(b"\r"), Content::Lit(b"--"),
     Content::XDashBoundary, Content::XYDashBoundary, Content::DashBoundary, Content::Lit(b"\0\xff"),
 ];
-const BOUNDARIES: &[&str] = &["B", "----WebKitFormBoundaryX", "a-b"];
+// (the last one: the longest boundary RFC 2046 allows, 70 characters - Dart's http package always writes 70)
+const BOUNDARIES: &[&str] = &["B", "----WebKitFormBoundaryX", "a-b", "dart-http-boundary-0123456789abcdefghijklmnopqrstuvwxyzABCDEFGHIJKLMNO"];
 
 fn opts_quick() -> Vec<EncOpts> {
     // default, then each option flipped alone, then all flipped
